@@ -21,6 +21,21 @@ namespace {
 
 using namespace sim;
 
+// character traits whose eq() is not operator==: the string constructors must compare through the traits
+inline constexpr auto fold_char(char c) noexcept -> char { return (c >= 'A' && c <= 'Z') ? static_cast<char>(c - 'A' + 'a') : c; }
+
+struct FoldTraits : etl::char_traits<char> {
+    static constexpr auto eq(char a, char b) noexcept -> bool { return fold_char(a) == fold_char(b); }
+
+    static constexpr auto lt(char a, char b) noexcept -> bool { return fold_char(a) < fold_char(b); }
+};
+
+struct StdFoldTraits : std::char_traits<char> {
+    static constexpr auto eq(char a, char b) noexcept -> bool { return fold_char(a) == fold_char(b); }
+
+    static constexpr auto lt(char a, char b) noexcept -> bool { return fold_char(a) < fold_char(b); }
+};
+
 template <typename B, size_t W, bool IsBitset>
 struct BitsDriver : DriverBase<BitsDriver<B, W, IsBitset>> {
     using Base = DriverBase<BitsDriver<B, W, IsBitset>>;
@@ -42,7 +57,7 @@ struct BitsDriver : DriverBase<BitsDriver<B, W, IsBitset>> {
     {
     }
 
-    auto raw(int s) -> void* { return arena_prepare(s, sizeof(B), plan.cfg, static_cast<uint64_t>(ctx.step + 1)); }
+    auto raw(int s) -> void* { return arena_prepare(s, sizeof(B), plan.cfg, static_cast<uint64_t>(ctx.step + 1), alignof(B)); }
 
     void create_default(int s)
     {
@@ -534,6 +549,17 @@ struct BitsDriver : DriverBase<BitsDriver<B, W, IsBitset>> {
         for (size_t i = 0; i < len; ++i) {
             text.push_back(((static_cast<uint64_t>(st.v[i % 4]) + i * 7U + st.k[0] % 1000U) % 3 == 0) ? one : zero);
         }
+        // letters in mixed case, compared through case-folding traits (string_view form only)
+        bool const folded = form == 3 && charset == 1 && st.v[3] % 2 == 1;
+        if (folded) {
+            for (size_t i = 0; i < len; ++i) {
+                if ((static_cast<uint64_t>(st.v[(i + 1) % 4]) + i) % 2 == 0) {
+                    text[i] = text[i] == 'o' ? 'O' : (text[i] == 'I' ? 'i' : text[i]);
+                }
+            }
+            SIM_COUNT("reach.bitset_string_with_folding_traits");
+        }
+        ctx.log.kv("folded", folded);
         bool bad = false;
         if (form == 3) {
             size_t const used = std::min(sn, len - spos);
@@ -583,7 +609,10 @@ struct BitsDriver : DriverBase<BitsDriver<B, W, IsBitset>> {
             case 3:
                 if constexpr (IsBitset) {
                     etl::string_view const sv(exact.p, len);
-                    if (customChars) {
+                    if (folded) {
+                        etl::basic_string_view<char, FoldTraits> const fsv(exact.p, len);
+                        made = new (mem) B(fsv, spos, sn, zero, one);
+                    } else if (customChars) {
                         made = new (mem) B(sv, spos, sn, zero, one);
                     } else if (sn == static_cast<size_t>(-1) && spos == 0) {
                         made = new (mem) B(sv); // all defaults
@@ -638,7 +667,9 @@ struct BitsDriver : DriverBase<BitsDriver<B, W, IsBitset>> {
         case 1: m = M(ull); break;
         case 2: m = model[b]; break;
         case 3:
-            if (customChars || zero != '0') {
+            if (folded) {
+                m = M(std::basic_string<char, StdFoldTraits>(text.data(), len), spos, sn, zero, one);
+            } else if (customChars || zero != '0') {
                 m = M(text, spos, sn, zero, one);
             } else {
                 m = M(text, spos, sn);
@@ -778,6 +809,11 @@ void register_bits_1()
 {
     add_basic_all<unsigned char>("uint8");
     add_basic_all<unsigned short>("uint16");
+    // more bits than the word type can count: a population count accumulated in the word type wraps here
+    add_basic<255, unsigned char>("uint8");
+    add_basic<256, unsigned char>("uint8");
+    add_basic<257, unsigned char>("uint8");
+    add_basic<300, unsigned char>("uint8");
 }
 #elif SIM_PART == 2
 void register_bits_2()
